@@ -64,6 +64,18 @@ CHECKS = {
   note='Not decided: correctness of the ordering routine itself, to_compartmental_system term matching, symbolic '
        'mass balance. Builder calls are recognised by method name.',
   ref='DESIGN.md §2 C05'),
+ 'C10': dict(
+  technique='class field models: coverage and accessor discipline of free_symbols/rhs_symbols/subs over every '
+            'expression-valued field; scan-direction / index-range lint of the backward definition searches; '
+            'dependency-edge shape',
+  text='Narrow claim: D1-D3 are necessary for "reported dependencies always include every parameter the value can '
+       'depend on" (a field that free_symbols ignores, or reports as an expression instead of symbols, hides a '
+       'dependency; a scan that skips index 0 or runs forwards mis-links definitions). The graph algorithms themselves '
+       '(dependencies, remove_symbol_definitions, full_expression, reassign) work on run-time statement lists and are '
+       'not decided by this family.',
+  note='Expression-valued fields are recognised from constructor annotations (Expr, Dose); exemptions are listed with '
+       'reasons in rules/C10.py.',
+  ref='DESIGN.md §2 C10'),
 }
 NA = {}
 
